@@ -214,6 +214,9 @@ def send_ops(uni, model, extra_names=("U",)):
                 ops.append(("dsend", d, k, name))
         ops.append(("dsend", d, "message", None))
         ops.append(("dsend", d, "pingRequest", None))
+        # a device (e.g. a proxy) may itself send getProperties: goes to the OTHER devices and to clients
+        for name in list(uni.names) + [None]:
+            ops.append(("dsend", d, "getProperties", name))
     return ops
 
 
